@@ -20,6 +20,9 @@ def main(argv=None):
     ap.add_argument("--noisy", action="store_true")
     a = ap.parse_args(argv)
 
+    import logging
+
+    logging.disable(logging.CRITICAL)
     from . import runner
 
     if a.replay:
